@@ -369,3 +369,90 @@ theorem C03_bool_with_position_full_instance : ∃ (o : BOut), ∃ out,
   exact ⟨o, out, h1, h4⟩
 
 end XPathV.Theorems.NonVacuity.C03
+
+/-! ## `C03_from_text`: positional steps from the expression text
+
+The hypotheses of `C03_from_text` (`a.axis = "child"`, `Frag2`, the parse of the text) and those of
+its second disjunct (`WF`, `nsIface`, `HashInj`, `Agree`, `validRef`) discharged on `d0`; the first
+disjunct (a builder error) is excluded by running `compile` on the text. -/
+namespace XPathV.Theorems.NonVacuity.C03
+open XPathV XPathV.Model XPathV.Theorems.NonVacuity XPathV.PosSem
+open XPathV.PathSem XPathV.PredSem XPathV.PredSem2
+
+attribute [local instance] toyAlg
+
+/-- **`C03_from_text`** at the text `/r/*[2]`: `Select` and `Evaluate` on the compiled text yield
+`{b}`, the second element child of `r` -/
+theorem C03_from_text_instance : ∃ p l, compile {} none "/r/*[2]".toList = .ok p ∧
+    selectAll (F := Int) d0 {} p (.node 0) = .ok l ∧
+    evaluate (F := Int) d0 {} p (.node 0) = .ok (.nodes l) ∧ ∀ x, x ∈ l ↔ x ∈ [Ref.node 4] := by
+  rcases Theorems.C03.C03_from_text (fun _ => true) none _ (chE "") rfl qR
+    (frag2_of_frag _ _ qR_frag) f2 parsed_lit with ⟨e, he⟩ | ⟨p, hp, _, h⟩
+  · exact absurd he (by
+      have : (compile {} none "/r/*[2]".toList).isOk = true := by decide +kernel
+      intro h'; rw [h'] at this; cases this)
+  · obtain ⟨l, nsl, h1, h2, h3, h4⟩ := h Int d0 wf_d0 {} rfl hashInj_d0
+      (agree_of_numOK f2 2 _ (f2_numOK _)) (.node 0) (by decide)
+    have e : Spec.evalTop (F := Int) d0 (.filter (.axis (chE "") qR) f2.ast) (.node 0) =
+        .ok (.nodes [.node 4]) := by decide +kernel
+    rw [e] at h3; cases h3
+    exact ⟨p, l, hp, h1, h2, h4⟩
+
+/-- `[last()]` -/
+def fL : PosForm := .last ""
+
+theorem fL_numOK (N : Nat) : fL.NumOK Int 2 N :=
+  toy_numOK fL (by
+    intro lex h
+    rcases h with h | ⟨_, _, h⟩ | ⟨_, h⟩ <;> cases h) N
+
+theorem parsed_cnt_last : ParsesTo "/r[count(*) = 3]/*[last()]" (.filter (.axis (chE "") qRc) fL.ast) :=
+  ApiSem.parsesTo_eq (by decide +kernel)
+
+/-- **`C03_from_text`** at the text `/r[count(*) = 3]/*[last()]` (input path in `Frag2`, not in
+`Frag`): `{a[2]}`, the last element child of `r` -/
+theorem C03_from_text_last_instance : ∃ p l,
+    compile {} none "/r[count(*) = 3]/*[last()]".toList = .ok p ∧
+    selectAll (F := Int) d0 {} p (.node 0) = .ok l ∧
+    evaluate (F := Int) d0 {} p (.node 0) = .ok (.nodes l) ∧ ∀ x, x ∈ l ↔ x ∈ [Ref.node 6] := by
+  rcases Theorems.C03.C03_from_text (fun _ => true) none _ (chE "") rfl qRc qRc_frag fL
+    parsed_cnt_last with ⟨e, he⟩ | ⟨p, hp, _, h⟩
+  · exact absurd he (by
+      have : (compile {} none "/r[count(*) = 3]/*[last()]".toList).isOk = true := by decide +kernel
+      intro h'; rw [h'] at this; cases this)
+  · obtain ⟨l, nsl, h1, h2, h3, h4⟩ := h Int d0 wf_d0 {} rfl hashInj_d0
+      (agree_of_numOK fL 2 _ (fL_numOK _)) (.node 0) (by decide)
+    have e : Spec.evalTop (F := Int) d0 (.filter (.axis (chE "") qRc) fL.ast) (.node 0) =
+        .ok (.nodes [.node 6]) := by decide +kernel
+    rw [e] at h3; cases h3
+    exact ⟨p, l, hp, h1, h2, h4⟩
+
+theorem parsed_chain : ParsesTo "/r[count(*) = 3]/*[2][@x < @y]"
+    (stackAst (.filter (.axis (chE "") qRc) f2.ast) [bXltY]) :=
+  ApiSem.parsesTo_eq (by decide +kernel)
+
+/-- **`C03_from_text_then_boolean_predicates`** at the text `/r[count(*) = 3]/*[2][@x < @y]`: `{b}` -/
+theorem C03_from_text_then_boolean_predicates_instance : ∃ p l,
+    compile {} none "/r[count(*) = 3]/*[2][@x < @y]".toList = .ok p ∧
+    selectAll (F := Int) d0 {} p (.node 0) = .ok l ∧
+    evaluate (F := Int) d0 {} p (.node 0) = .ok (.nodes l) ∧ ∀ x, x ∈ l ↔ x ∈ [Ref.node 4] := by
+  rcases Theorems.C03.C03_from_text_then_boolean_predicates (fun _ => true) none _ (chE "") rfl qRc
+    qRc_frag f2 [bXltY] (by
+      intro b hb; simp only [List.mem_cons, List.not_mem_nil, or_false] at hb; subst hb
+      exact bXltY_frag) parsed_chain with ⟨e, he⟩ | ⟨p, hp, _, h⟩
+  · exact absurd he (by
+      have : (compile {} none "/r[count(*) = 3]/*[2][@x < @y]".toList).isOk = true := by
+        decide +kernel
+      intro h'; rw [h'] at this; cases this)
+  · obtain ⟨l, nsl, h1, h2, h3, h4⟩ := h Int d0 wf_d0 {} rfl hashInj_d0
+      (agree_of_numOK f2 2 _ (f2_numOK _)) (.node 0) (by decide)
+    have e : Spec.evalTop (F := Int) d0 (stackAst (.filter (.axis (chE "") qRc) f2.ast) [bXltY])
+        (.node 0) = .ok (.nodes [.node 4]) := by decide +kernel
+    rw [e] at h3; cases h3
+    exact ⟨p, l, hp, h1, h2, h4⟩
+
+end XPathV.Theorems.NonVacuity.C03
+
+section AxiomAuditFromText
+open XPathV.Theorems.NonVacuity.C03
+end AxiomAuditFromText
